@@ -48,7 +48,7 @@ ASSUMPTIONS = [
     "call",
 ]
 FLOORS = {"boot_arguments_by_position": 200, "boot_script": 40, "boot_checked": 500, "config_area_compared": 500,
-          "after_options_boot": 150, "multi_block_image": 300,
+          "after_options_boot": 150, "multi_block_image": 300, "image_with_repeated_blocks": 150,
           "returned_structs_checked": 500, "controller_boot": 40}
 SHARDS = {"quick": 16, "thorough": 64}
 CLASSES = ["presets", "overrides", "sizes", "history", "controller"]
@@ -240,6 +240,24 @@ def run(case, ctx):
             clock = net.clock
             rng = random.Random(b["seed"])
             image = bytes(rng.getrandbits(8) for _ in range(b["size"]))
+            shape = b["seed"] % 5
+            if shape in (1, 2) and len(image) >= 2048:
+                # what real images look like: zero-filled (.bss) stretches,
+                # tables stored twice - whole blocks that are byte-identical
+                # to other blocks, and runs of equal words inside blocks
+                img = bytearray(image)
+                nb = len(img) // 1024
+                for _ in range(rng.randint(1, 3)):
+                    i, j = rng.randrange(nb), rng.randrange(nb)
+                    if shape == 1:
+                        img[j * 1024:(j + 1) * 1024] = \
+                            img[i * 1024:(i + 1) * 1024]
+                    else:
+                        lo, hi = sorted((i, j))
+                        img[lo * 1024:(hi + 1) * 1024] = \
+                            bytes((hi + 1 - lo) * 1024)
+                image = bytes(img)[:len(image)]
+                ctx.hit("image_with_repeated_blocks")
             path = os.path.join(tmp, "img%d.boot" % bi)
             with open(path, "wb") as f:
                 f.write(image)
